@@ -320,6 +320,11 @@ func RunSched(t *testing.T, tr *h.Trace, st *h.Stats) (v *h.Violation) {
 			default:
 				panic(&h.InfraError{Msg: "unknown sched target " + ss.Target})
 			}
+			if dt, ok := target.(*dwTgt); ok {
+				for i := 0; i < ss.Callbacks; i++ {
+					dt.w.OnPut(func(int) { sim.Yield("client:callback") }, false)
+				}
+			}
 			rng := h.NewRng(ss.PickSeed)
 			sched = NewSched(rng, ss.Picks, len(ss.Picks) > 0, maxSteps)
 			ctx, cancel := context.WithCancel(context.Background())
@@ -356,10 +361,13 @@ func RunSched(t *testing.T, tr *h.Trace, st *h.Stats) (v *h.Violation) {
 			}
 			sim.SetScheduler(sched)
 			sched.Run()
-			sim.SetScheduler(nil)
 			if sched.Aborted() {
+				// the tasks now run freely; the (aborted) scheduler stays installed so that their lock
+				// operations remain no-ops instead of reaching real mutexes that were never locked
 				cancel()
+				synctest.Wait()
 			}
+			sim.SetScheduler(nil)
 			synctest.Wait()
 			for _, pc := range perClient {
 				hist = append(hist, pc...)
